@@ -70,7 +70,7 @@ DTrialF == /\ pc = "LSF" /\ ls.n < ls.budget
            /\ \E fr \in Ranks :
                 /\ Convex /\ ls.n = ls.budget - 1 /\ LowerTrials = {} => fr < fx
                 /\ TrialF(npts + 1, fr)
-DTrialG == \E b \in PgFacts(ls.trials[Len(ls.trials)].fr) : TrialG(ls.pend, b)
+DTrialG == pc = "LSG" /\ \E b \in PgFacts(ls.trials[Len(ls.trials)].fr) : TrialG(ls.pend, b)
 DLSEnd == /\ pc = "LSF"
           /\ \/ /\ ~Convex \/ (ls.n = ls.budget /\ LowerTrials = {})
                 /\ (LSFailAbort \/ LSFailReset)
